@@ -188,7 +188,7 @@ theorem erL_map (f g : List Char → List Char) (hfg : ∀ l, Er (f l) (g l)) : 
 
 /-! ### stripping ANSI colour sequences (`ESC [ digits-or-semicolons m`) -/
 
-inductive SSt where
+inductive StripSt where
   | normal
   | esc
   | params (buf : List Char)
@@ -196,7 +196,7 @@ inductive SSt where
 def isParamChar (c : Char) : Bool := c.isDigit || c == ';'
 
 /-- remove every match of `\x1b\[[0-9;]*m`, left to right -/
-def strip : SSt → List Char → List Char
+def strip : StripSt → List Char → List Char
   | .normal, [] => []
   | .normal, c :: cs => if c = '\x1b' then strip .esc cs else c :: strip .normal cs
   | .esc, [] => ['\x1b']
